@@ -255,11 +255,33 @@ PROPS['C06'] = {
                     'composition write∘read through the page layer is by the C11 contracts (logical stream survives flush); no end-to-end lemma over whole files'],
 }
 
+TRUSTED_ALLOW['fmt'] = TRUSTED_ALLOW['rd'] | TRUSTED_ALLOW['page_w'] | {'external_body:shim_arr8', 'external_body:bytes_eq8'}
+TRUSTED_ALLOW['e57w'] = TRUSTED_ALLOW['page_w'] | {'external_body:shim_arr8', 'external_body:bytes_eq8', 'external_body:shim_string_as_bytes',
+                                                  'external_body:serialize_root', 'external_body:shim_root', 'external_body:shim_empty_meta'}
+UNIT_RLIMIT.update({'fmt': 40, 'e57w': 40, 'pcw': 40, 'blob': 40})
+PROPS['C02'] = {
+    'level': 'proof',
+    'verus': ['page_w', 'fmt', 'blob', 'e57w'],
+    'claim': ('Writer side against a format specification written from the standard, not from the reader (binary layer): Header::write emits the 48 header bytes '
+              '(signature "ASTM-E57" checked against the extracted constant, version 1.0, LE fields); E57Writer::new starts the file with the placeholder header; '
+              'finalize_customized_xml appends the XML bytes at the cursor, replaces ONLY logical bytes 0..48 by a header whose fields are the true flushed file '
+              'length (whole pages), the physical XML offset (= phys(cursor), outside checksum bytes), the XML length and page size 1024, and flushes: device '
+              'payload = logical stream, every page sealed (C11). DataPacketHeader::write and CompressedVectorSectionHeader::write emit the packet / section '
+              'header layouts; Blob::write emits header ++ payload ++ padding with the section length of the format; physical_position never points into checksum '
+              'bytes; align pads with zeros to 4; every page sealed with the big-endian checksum (that the checksum is CRC-32C is discharged under C07, unit crc_k). Header::read / packet parsers (unit rd) accept exactly these layouts.'),
+    'trusted': GLOBAL_TRUSTED + [_DEV, _CRC_OFF],
+    'assumptions': [_DEV, _CRC_OFF,
+                    'XML well-formedness / namespace correctness and the offsets published INSIDE the XML text are outside (serialize_root is contract-only; String bytes uninterpreted) — C04 not applicable',
+                    'the caller-supplied XML transformer is any function that can be called on every String',
+                    'packet payload layout (sizes + streams) and the compressed-vector section length bookkeeping are in unit pcw (C01) when claimed',
+                    'decoding by an independent implementation is replaced by: specification functions written from the standard + confirmation of the blob length convention on libE57Format files in testdata'],
+}
+
 FIX_COMMITS = ['4bb8197', '4c9a29a', '15147a8', '4e117ba', 'b93d656', 'a099e6e', 'e707a6b', '30d67e9', '4443841', '1d90b93', 'ec0e9b9']
 
 _PENDING = 'unit not completed yet in the build round (applicable; see DESIGN.md §1) — not claimed until its obligations are discharged'
 NOT_APPLICABLE = {
-    'C01': _PENDING, 'C02': _PENDING,
+    'C01': _PENDING,
     'C04': 'lives entirely in format!-built strings and roxmltree parsing; no contract within reach of Verus (no str byte reasoning) or Kani (roxmltree does not finish) can state parse(serialise(x)) = x (DESIGN.md §6)',
     'C05': _PENDING, 
     'C15': _PENDING, 
